@@ -92,6 +92,7 @@ func cmdCheck(args []string) int {
 	if tier == "thorough" {
 		cfg.timeoutS = 60
 		cfg.needAgree = 2
+		os.Setenv("KVC_NOCACHE", "1") // every query is solved afresh, by two back ends
 	}
 	_ = os.RemoveAll(cfg.workDir)
 	var incl, excl []*regexp.Regexp
@@ -194,6 +195,7 @@ func cmdCheck(args []string) int {
 	seenNorm := map[string]bool{}
 	knownSeen := []string{}
 	nObl, nDis := 0, 0
+	cachedN := 0
 	byBackend := map[string]int{}
 	solverTime := 0.0
 	for _, r := range results {
@@ -208,7 +210,10 @@ func cmdCheck(args []string) int {
 		seenNorm[normName(r.Name)] = true
 		if r.Status == "discharged" {
 			nDis++
-			byBackend[r.Backend]++
+			byBackend[strings.TrimSuffix(r.Backend, " (cached)")]++
+			if strings.HasSuffix(r.Backend, " (cached)") {
+				cachedN++
+			}
 			continue
 		}
 		if kf := matchKnown(known, prop, r); kf != nil {
@@ -290,6 +295,7 @@ func cmdCheck(args []string) int {
 		"functions_under_contract": funcsDone,
 		"by_backend":               byBackend,
 		"solver_time_s":            round2(solverTime),
+		"answers_reused_from_query_cache": cachedN,
 		"known_findings_seen":      knownSeen,
 		"explanation":              ps.Explanation,
 		"evaluations":              len(results),
